@@ -1,0 +1,13 @@
+//go:build verif
+
+// Hook for the external verification harness (/verif). Compiled only with
+// `-tags verif`. It only exposes the dial override client_test.go already uses.
+
+package client
+
+import "net"
+
+// VerifSetDialFunc makes Dial use f instead of opening a UDP/DTLS socket.
+func (c *Client) VerifSetDialFunc(f func() (net.Conn, error)) {
+	c.mockupDialFunc = f
+}
